@@ -41,7 +41,7 @@ structure Cfg where
   rewriteUnbId : Bool
   /-- gov `Validate` walks the proposal queues completely (not only up to the block time) -/
   govScanAll : Bool
-  /-- handler order is validate-all, execute-all, record -/
+  /-- handler order is validate-all, (the target account is created when it does not exist), execute-all, record -/
   orderOk : Bool
   /-- `ValidateBasic` compares the address recovered from the signature with the target -/
   sigRequired : Bool
@@ -102,7 +102,7 @@ def cfg : Cfg :=
                     Gen.C14.unbondingIndexValues == ["GetUBDKey(to.Bytes(),valAddr)", "GetREDKey(to.Bytes(),valSrcAddr,valDstAddr)"]
     govScanAll := Gen.C14.govInactiveBound == farFuture && Gen.C14.govActiveBound == farFuture
     orderOk := Gen.C14.handlerOrder == ["check-record-from", "check-record-to", "check-from-account",
-                                        "validate-all", "execute-all", "set-record"]
+                                        "validate-all", "ensure-to-account", "execute-all", "set-record"]
     sigRequired := Gen.C14.sigComparedWith == "to"
     checkOperator := Gen.C14.stakingValidateChecks.contains "validator-from" &&
                      Gen.C14.stakingValidateChecks.contains "validator-to"
